@@ -1,6 +1,7 @@
 import SamplyModel.Model.BreakpadWholesym
 import SamplyModel.Lemmas.BreakpadMap
 import SamplyModel.Model.BreakpadSpec
+import SamplyModel.Lemmas.BreakpadReadIndex
 /-!
 Helper lemmas for C10, improvement round: what `parse_symindex_file` demands of the length of its input
 (so that every proper prefix of a serialized index is rejected), array lengths of a parsed index, and the
@@ -255,9 +256,67 @@ theorem joinNl_prefix (first : List Byte) (ls : List (List Byte)) : first <+: LB
   | nil => exact List.prefix_refl _
   | cons l ls => exact List.prefix_append _ _
 
+/-! ### the module-info block the creator writes reports the id of its first line -/
+
+theorem joinNl_shape (first : List Byte) (infos : List (List Byte)) :
+    ∃ X, LB.joinNl first infos = first ++ X ∧ (X = [] ∨ ∃ t, X = 10 :: t) := by
+  cases infos with
+  | nil => exact ⟨[], by simp [LB.joinNl], Or.inl rfl⟩
+  | cons l ls => exact ⟨10 :: LB.joinNl l ls, by simp [LB.joinNl], Or.inr ⟨_, rfl⟩⟩
+
+theorem deriveModule_shape_eq (first : List Byte) (infos : List (List Byte))
+    (hf : (10 : Byte) ∉ first) (hi : ∀ l ∈ infos, (10 : Byte) ∉ l ∧ (tag tINFO_ l).isSome = true)
+    (hm : (moduleLine first).isSome = true) :
+    deriveModule (LB.joinNl first infos) = moduleLine first := by
+  have hne : first ≠ [] := by
+    intro e; subst e; simp [moduleLine, tag, tMODULE] at hm
+  have hine : ∀ l ∈ infos, l ≠ [] := by
+    intro l hl e; subst e
+    have := (hi [] hl).2
+    simp [tag, tINFO_] at this
+  unfold deriveModule
+  rw [moduleInfoLines_shape first infos hf (fun l hl => (hi l hl).1) hne hine]
+  simp only [List.foldl_cons]
+  cases hm' : moduleLine first with
+  | none => simp [hm'] at hm
+  | some m =>
+    simp only
+    rw [foldl_keep _ infos (some m) ?_]
+    intro b l hl
+    rw [moduleLine_of_info l (hi l hl).2]
+
+/-- a module-info block of the creator's shape (MODULE line, then INFO lines): its first line is that
+MODULE line and the id the parsed index reports is the id of that line -/
+theorem storedIdAgrees_of_shape (ix : Index) (h : ModShape ix.moduleInfo) :
+    storedIdAgrees ix = true ∧ (moduleLine (storedModuleLine ix)).isSome = true := by
+  obtain ⟨first, infos, hmi, hf, hi, hm⟩ := h
+  obtain ⟨X, hX, hsh⟩ := joinNl_shape first infos
+  have hline : storedModuleLine ix = first := by
+    unfold storedModuleLine
+    rw [hmi, hX]
+    exact takeWhile_ne10 _ _ hf hsh
+  have hd : deriveModule ix.moduleInfo = moduleLine first := by
+    rw [hmi]; exact deriveModule_shape_eq first infos hf hi hm
+  refine ⟨?_, by rw [hline]; exact hm⟩
+  rw [storedIdAgrees_iff]
+  cases hm' : moduleLine first with
+  | none => simp [hm'] at hm
+  | some m =>
+    exact ⟨debugIdValue m.id, by simp [debugIdOfModuleLine, hline, hm'], by simp [indexDebugId, hd, hm']⟩
+
+theorem modShape_specIndex (s : SymFile) (h : WFIndex s) : ModShape (specIndex s).moduleInfo := by
+  obtain ⟨st, hc, _, he⟩ := preIndex_spec Pick.first (render s)
+  rw [preIndex_render Pick.first s h] at he
+  cases hm : st.hasModule with
+  | false => simp [hm] at he
+  | true =>
+    simp only [hm, if_true, Pre.ix.injEq] at he
+    rw [he]
+    exact hc.module hm
+
 theorem storedMatches_render (s : SymFile) (h : WFIndex s) : storedMatches (render s) (specIndex s) = true := by
   rw [storedMatches_iff, storedModuleLine_spec s h]
-  refine ⟨?_, ?_⟩
+  refine ⟨?_, ?_, (storedIdAgrees_of_shape _ (modShape_specIndex s h)).1⟩
   · intro e
     have := h.moduleOk
     rw [e] at this
